@@ -135,6 +135,9 @@ type c03Cfg struct {
 	// answers: "slow" - the call takes 3 s and ignores its context; "slow-ctx" - the call takes 3 s unless its context
 	// ends first, then it returns the context's error (a transient failure)
 	Timeout bool `json:"attempt_timeout,omitempty"`
+	// IdleMs: virtual time that passes between the last producer's return and the shutdown request (a flush timer that is
+	// due fires in between; Shutdown's final flush then meets a timer goroutine that may still be at work)
+	IdleMs int `json:"idle_before_shutdown_ms,omitempty"`
 }
 
 type c03Obs struct {
@@ -341,6 +344,9 @@ func c03Body(cf *c03Cfg, o *c03Obs) func() {
 			swg.Wait()
 		} else {
 			wg.Wait()
+			if cf.IdleMs > 0 {
+				vs.Sleep(time.Duration(cf.IdleMs) * time.Millisecond)
+			}
 			shutdown()
 		}
 		// grace horizon: nothing may start after Shutdown returned, whatever time passes
@@ -472,6 +478,9 @@ func c03Configs(quick bool) []*c03Cfg {
 		if c.Timeout {
 			c.Name += ",attempt-timeout"
 		}
+		if c.IdleMs > 0 {
+			c.Name += fmt.Sprintf(",idle=%dms", c.IdleMs)
+		}
 		if c.FreeBackend {
 			c.Name += fmt.Sprintf(",free-backend,batch=%d..%d", c.BatchMin, c.BatchMax)
 		}
@@ -505,6 +514,10 @@ func c03Configs(quick bool) []*c03Cfg {
 	// shutdown; every backend answer pattern is enumerated
 	add(c03Cfg{Persistent: true, Batch: true, Retry: true, Consumers: 1, Producers: [][]int{{3}}, Concurrent: false, FreeBackend: true, BatchMin: 2, BatchMax: 2})
 	add(c03Cfg{Batch: true, Retry: true, Consumers: 1, Producers: [][]int{{3}}, Concurrent: false, FreeBackend: true, BatchMin: 2, BatchMax: 2})
+	// the flush timer fires (or is about to) when Shutdown is requested: exactly at its deadline, and shortly after it
+	add(c03Cfg{Batch: true, Consumers: 1, Producers: [][]int{{1}}, Concurrent: false, IdleMs: 1000})
+	add(c03Cfg{Batch: true, Retry: true, Consumers: 1, Producers: [][]int{{1}, {1}}, Concurrent: false, IdleMs: 1500, BatchMin: 3, BatchMax: 3})
+	add(c03Cfg{Persistent: true, Batch: true, Consumers: 1, Producers: [][]int{{1}}, Concurrent: false, IdleMs: 1500})
 	// per-attempt timeout with a backend that is slow (the statement's third backend behaviour): Shutdown may only return
 	// when the slow call has returned too, whether or not it honours its deadline
 	add(c03Cfg{Timeout: true, Retry: true, Consumers: 1, Producers: [][]int{{1}, {2}}, Concurrent: true})
@@ -550,6 +563,9 @@ func TestVerif(t *testing.T) {
 	all := true
 	for ci, cf := range c03Configs(ctx.Quick()) {
 		if prop == "C01" && (!cf.Persistent || cf.CloseFails) {
+			continue
+		}
+		if only := os.Getenv("VERIF_C03_ONLY"); only != "" && !strings.Contains(cf.Name, only) { // debugging aid
 			continue
 		}
 		if ctx.Expired() {
